@@ -166,9 +166,17 @@ static bool num(const std::string &s, long &out) {
 struct Req {             // what the property says about a request
   bool invalid = false;  // must raise
   bool f05 = false;      // ... only because the receiver is an uninitialised handle (known finding F05)
+  bool dontcare = false; // zero-byte dtype: every range addresses zero bytes, the property does not say which to reject
   std::string why;
   void bad(const std::string &w, bool f = false) { if (!invalid) { invalid = true; why = w; f05 = f; } }
 };
+
+// shadow byte, tolerant of a shadow that no longer matches (an oracle has fired by then)
+static int &sb(int buf, long pos) {
+  static int junk; junk = -1;
+  if (buf < 0 || buf >= (int) sbufs.size() || pos < 0 || pos >= (long) sbufs[buf].b.size()) return junk;
+  return sbufs[buf].b[pos];
+}
 
 static long lenOf(int v) { return (sv[v].init && sv[v].esz) ? sv[v].size / sv[v].esz : 0; }
 
@@ -242,8 +250,8 @@ int main() {
         shadowOk = [=, &bytes]() {
           if (n == 0) { sv[v] = SView{false, 0, 0, 0, 1, -1}; return; }
           SBuf b; b.base = vars[v].ptr<char>();
-          b.b.assign(n * e, -1);
-          if (withData) for (long k = 0; k < n * e; ++k) b.b[k] = (unsigned char) bytes[k];
+          b.b.assign(std::max(0L, n * e), -1);
+          if (withData) for (long k = 0; k < n * e && k < (long) bytes.size(); ++k) b.b[k] = (unsigned char) bytes[k];
           sbufs.push_back(b);
           shadowAdopt(v, (int) sbufs.size() - 1, 0, n * e, (int) e);
         };
@@ -258,8 +266,8 @@ int main() {
         shadowOk = [=]() {
           if (n == 0) { sv[v] = SView{false, 0, 0, 0, 1, -1}; return; }
           SBuf b; b.base = vars[v].ptr<char>();
-          b.b.assign(n * e, -1);
-          if (!noSrc) for (long k = 0; k < n * e && k < sv[s].size; ++k) b.b[k] = sbufs[sv[s].buf].b[sv[s].off + k];
+          b.b.assign(std::max(0L, n * e), -1);
+          if (!noSrc) for (long k = 0; k < n * e && k < sv[s].size; ++k) b.b[k] = sb(sv[s].buf, sv[s].off + k);
           sbufs.push_back(b);
           shadowAdopt(v, (int) sbufs.size() - 1, 0, n * e, (int) e);
         };
@@ -279,7 +287,8 @@ int main() {
         else {
           if (off < 0) req.bad("negative offset");
           if (cnt < -1 && sv[s].esz) req.bad("negative count");
-          if (cnt == -1 ? off > lenOf(s) : off + cnt > lenOf(s)) req.bad("out of the handle's range");
+          if (sv[s].esz == 0 && off >= 0) req.dontcare = true;
+          else if (cnt == -1 ? off > lenOf(s) : off + cnt > lenOf(s)) req.bad("out of the handle's range");
         }
         made = d; parent = s;
         act = [=]() { occa::memory m = plus ? (vars[s] + off) : vars[s].slice(off, cnt); vars[d] = m; };
@@ -311,7 +320,8 @@ int main() {
           if (!sv[s].init || !vars[d].isInitialized()) { sv[d] = SView{false, 0, 0, 0, 1, -1}; return; }
           SView p = sv[s];
           SBuf b; b.base = vars[d].ptr<char>();
-          b.b.assign(sbufs[p.buf].b.begin() + p.off, sbufs[p.buf].b.begin() + p.off + p.size);
+          b.b.assign(std::max(0L, p.size), -1);
+          for (long k = 0; k < p.size; ++k) b.b[k] = sb(p.buf, p.off + k);
           sbufs.push_back(b);
           shadowAdopt(d, (int) sbufs.size() - 1, 0, p.size, p.esz);
         };
@@ -331,8 +341,7 @@ int main() {
         shadowOk = [=, &bytes]() {
           if (!sv[v].init) return;
           long n = ((cnt == -1) ? lenOf(v) : cnt) * sv[v].esz;
-          SBuf &b = sbufs[sv[v].buf];
-          for (long k = 0; k < n; ++k) b.b[sv[v].off + off * sv[v].esz + k] = (unsigned char) bytes[k];
+          for (long k = 0; k < n && k < (long) bytes.size(); ++k) sb(sv[v].buf, sv[v].off + off * sv[v].esz + k) = (unsigned char) bytes[k];
         };
       } else if (op == "cth" && nnum == 4 && isVar(a[0]) && a[1] >= 0 && a[1] <= 65536) {
         int v = a[0]; long cap = a[1]; long cnt = a[2], off = a[3];
@@ -377,9 +386,10 @@ int main() {
         shadowOk = [=]() {
           if (!sv[d].init || !sv[s].init) return;
           long n = ((cnt == -1) ? lenOf(self) : cnt) * sv[self].esz;
+          if (n < 0 || n > 65536) return;
           std::vector<int> tmp(n);
-          for (long k = 0; k < n; ++k) tmp[k] = sbufs[sv[s].buf].b[sv[s].off + soff * sv[s].esz + k];
-          for (long k = 0; k < n; ++k) sbufs[sv[d].buf].b[sv[d].off + doff * sv[d].esz + k] = tmp[k];
+          for (long k = 0; k < n; ++k) tmp[k] = sb(sv[s].buf, sv[s].off + soff * sv[s].esz + k);
+          for (long k = 0; k < n; ++k) sb(sv[d].buf, sv[d].off + doff * sv[d].esz + k) = tmp[k];
         };
       } else if (op == "asg" && nnum == 2 && isVar(a[0]) && isVar(a[1])) {
         int d = a[0], s = a[1];
@@ -434,11 +444,12 @@ int main() {
       catch (occa::exception &ex) { threw = true; out = errClass(ex); }
 
       // ---- O3 / O4
-      if (!threw && req.invalid) {
+      if (req.dontcare) { /* neither O3 nor O4 */ }
+      else if (!threw && req.invalid) {
         if (!(req.f05 && quietF05))
           hp::oracle(std::string(req.f05 ? "uninitialised handle: " : "invalid request accepted: ") + "`" + op + "` (" + req.why + ") returned without raising occa::exception");
       }
-      if (threw && !req.invalid)
+      if (threw && !req.invalid && !req.dontcare)
         hp::oracle("valid request rejected: `" + op + "` raised " + out);
 
       if (threw) {
@@ -482,7 +493,7 @@ int main() {
           std::string shown;
           static const char *dg = "0123456789abcdef";
           for (long k = 0; k < wantBytes; ++k) {
-            int want = sbufs[sv[v].buf].b[sv[v].off + off * sv[v].esz + k];
+            int want = sb(sv[v].buf, sv[v].off + off * sv[v].esz + k);
             unsigned char got = hostDst.get()[k];
             if (want < 0) { shown += "??"; continue; }
             if (got != want) hp::oracle("copyTo byte " + std::to_string(k) + " is " + std::to_string(got) + ", the reference byte array has " + std::to_string(want));
